@@ -664,7 +664,11 @@ func (i *Interp) sprint(fr *frame, args []value, ln bool) value {
 func (i *Interp) sprintf(fr *frame, formatV value, args []value) value {
 	format, ok := formatV.(string)
 	if !ok {
-		panic(unsupported{"symbolic format string"})
+		ss, isS := formatV.(sstring)
+		if !isS {
+			panic(unsupported{"symbolic format string"})
+		}
+		return i.sprintfSymbolic(fr, ss, args)
 	}
 	var out value = ""
 	argn := 0
@@ -741,6 +745,67 @@ func (i *Interp) sprintf(fr *frame, formatV value, args []value) value {
 			out = strConcat(out, i.format(fr, 'v', "", it))
 		}
 		out = strConcat(out, ")")
+	}
+	return out
+}
+
+// sprintfSymbolic handles a format string with symbolic bytes: every symbolic
+// byte is decided to be '%' or not (forking); runs without a '%' are copied —
+// staying symbolic —, and the directive after a '%' is made concrete (forking
+// over its feasible characters) and formatted on its own by sprintf, with the
+// arguments not yet consumed.
+func (i *Interp) sprintfSymbolic(fr *frame, format sstring, args []value) value {
+	var out value = ""
+	argn := 0
+	for p := 0; p < len(format); {
+		b := format[p]
+		isPct := false
+		switch c := b.(type) {
+		case uint8:
+			isPct = c == '%'
+		case *Term:
+			isPct = i.decide(i.ts.Eq(c, i.ts.BV('%', 8)), fr, "fmt: '%' in format")
+		}
+		if !isPct {
+			out = strConcat(out, sstring{b})
+			p++
+			continue
+		}
+		// the directive: '%' flags width precision verb — concrete from here on
+		dir := []byte{'%'}
+		p++
+		for p < len(format) {
+			var c byte
+			switch x := format[p].(type) {
+			case uint8:
+				c = x
+			case *Term:
+				c = byte(i.concretize(x, 0, 255, fr))
+			}
+			dir = append(dir, c)
+			p++
+			if strings.IndexByte("+-# 0123456789.*[]", c) < 0 {
+				break
+			}
+		}
+		rest := args
+		if argn < len(args) {
+			rest = args[argn:]
+		} else {
+			rest = nil
+		}
+		// how many arguments the directive consumes: none for %% and for a dangling '%'
+		consumed := 0
+		last := dir[len(dir)-1]
+		if len(dir) > 1 && last != '%' && strings.IndexByte("+-# 0123456789.*[]", last) < 0 && len(rest) > 0 {
+			consumed = 1
+		}
+		piece := i.sprintf(fr, string(dir), rest[:consumed])
+		out = strConcat(out, piece)
+		argn += consumed
+	}
+	if argn < len(args) {
+		out = strConcat(out, i.sprintf(fr, "", args[argn:]))
 	}
 	return out
 }
